@@ -198,6 +198,8 @@ impl Monitor for Mon {
 
 pub fn prop() -> HistProp {
     let mut w = Weights::trading();
+    // funding drains: the oracle is set so that the next settlement consumes about half / all / several times a holder's margin
+    w.drain = 3;
     w.open = 36;
     w.withdraw = 14;
     w.deposit = 8;
